@@ -83,6 +83,11 @@ def op_transfer(w: World, op: dict):
         else:
             w.emit({"op": "TransferEnd"}, {"op": "transfer", "exc": type(exc).__name__, "transferred": [], "failed": []})
         return
+    if "new" not in began:
+        # the transfer returned without ever handing its status to the caller's validate_status - the one channel through
+        # which objects missing on BOTH sides are reported
+        w.emit(act, {"op": "xstatus", "new": w.ids(res.transferred), "missing": [], "silent": True})
+        return
     if began.get("new"):
         w.emit({"op": "TransferEnd"},
                {"op": "transfer", "transferred": w.ids(res.transferred), "failed": w.ids(res.failed)})
